@@ -144,7 +144,7 @@ pub fn run(run: &Run) {
     for f in fmts::all() {
         c04::for_each_string(run, &f, &pool, &|s| {
             run.eval(1);
-            match crate::watch::case(s, || case_parse(&f, s)) {
+            match crate::watch::tagged(f.name, s, || case_parse(&f, s)) {
                 Ok(true) => {
                     accepted.add(&format!("{}:{s}", f.name));
                 }
@@ -152,7 +152,7 @@ pub fn run(run: &Run) {
                 Err(msg) => run.violation(&format!("[{}] {}", f.name, msg), json!({"op": "parse_wf", "format": f.name, "input": s}), &[]),
             }
             run.eval(1);
-            match crate::watch::case(s, || case_text_fold(&f, s)) {
+            match crate::watch::tagged(f.name, s, || case_text_fold(&f, s)) {
                 Ok(true) => {
                     accepted.add(&format!("{}:fold:{s}", f.name));
                 }
@@ -166,7 +166,7 @@ pub fn run(run: &Run) {
         pool.install(|| {
             vals.par_iter().for_each(|x| {
                 run.eval(1);
-                match case_fold(&f, x) {
+                match crate::watch::tagged(&format!("fold:{}", f.name), &ln_to_json(x).to_string(), || case_fold(&f, x)) {
                     Ok(true) => {
                         accepted.add(&format!("{}:{x:?}", f.name));
                     }
